@@ -104,6 +104,10 @@ pub struct SchemaModel {
     /// `scalarTypes` option, to say which TypeScript type a scalar has)
     #[serde(default)]
     pub ts_type_directives: bool,
+    /// the mutation / subscription root types are declared by an `extend schema { .. }` piece in
+    /// this schema file (the `schema { query: .. }` block stays in file 0)
+    #[serde(default)]
+    pub schema_ext_file: Option<usize>,
 }
 
 impl SchemaModel {
